@@ -268,6 +268,44 @@ def check_mc_mesh(out, vol, level, spacing, direction, inp, expect_sign=None, id
     return verts, faces, sv
 
 
+def run_no_degenerate(seed):
+    """marching_cubes(..., allow_degenerate=False) on integer-valued fields whose level passes exactly through grid nodes (so zero-area triangles exist and vertices are
+    merged): the compacted mesh is still a mesh of the same surface -- face indices valid and pointing at nearby vertices, one normal / value per vertex, the same signed
+    volume as with the degenerate triangles kept."""
+    marching_cubes = _mc()
+    out = Outcome()
+    rng = np.random.default_rng(seed + 606)
+    for case in range(6):
+        n = int(rng.integers(14, 20))
+        g = np.arange(n) - (n - 1) // 2
+        X, Y, Z = np.meshgrid(g, g, g, indexing="ij")
+        a, b, c = (int(v) for v in rng.integers(1, 3, 3))
+        vol = (a * X * X + b * Y * Y + c * Z * Z).astype(np.float32)
+        level = float(rng.choice([16, 25, 32, 36]))
+        spacing = tuple(float(v) for v in rng.choice([0.5, 0.7, 1.0, 1.1], 3))
+        inp = {"field": f"{a} x^2 + {b} y^2 + {c} z^2 on {n}^3 integer nodes", "level": level, "spacing": spacing, "allow_degenerate": False}
+        out.evaluations += 1
+        out.cases += 1
+        try:
+            v0, f0, _, _ = marching_cubes(vol, level, spacing=spacing, allow_degenerate=True)
+            v1, f1, n1, w1 = marching_cubes(vol, level, spacing=spacing, allow_degenerate=False)
+        except Exception as e:  # noqa
+            out.fail("raises", "marching_cubes returns with allow_degenerate=False", inp, f"raised {type(e).__name__}: {e}")
+            continue
+        v1, f1 = np.asarray(v1, dtype=float), np.asarray(f1)
+        if len(f1) == 0 or f1.min() < 0 or f1.max() >= len(v1) or len(n1) != len(v1) or len(w1) != len(v1):
+            out.fail("arrays", "face indices are valid and normals / values have one row per vertex", inp, {"vertices": len(v1), "normals": len(n1), "values": len(w1), "max_index": int(f1.max()) if len(f1) else None})
+            continue
+        ext = np.abs(v1[f1] - v1[f1][:, [1, 2, 0]]).max(axis=(0, 1)) / np.asarray(spacing)
+        if ext.max() > 1.0 + 1e-4:          # (vertex coordinates are float32)
+            out.fail("triangle_in_one_cell", "every triangle lies within one grid cell (its corners are at most one cell apart along each axis)", inp, {"largest_extent_in_cells": ext.tolist()})
+            continue
+        s0, s1 = signed_volume(np.asarray(v0, dtype=float), np.asarray(f0)), signed_volume(v1, f1)
+        if not abs(s0 - s1) <= 1e-6 * abs(s0):
+            out.fail("same_surface", "removing zero-area triangles does not change the enclosed volume", inp, {"with_degenerate_triangles": s0, "without": s1})
+    return out
+
+
 def run_configs(seed, n_mag, spacings, pads_extras):
     """All 255 non-empty sign configurations x magnitude patterns x both directions, spacings and grid shapes rotating."""
     rng = np.random.default_rng(seed + 606)
